@@ -82,6 +82,16 @@ func drawProgram(t *rapid.T) *program {
 		default:
 			params, args, res = "x *"+c.typ, "x", "*"+c.typ
 		}
+		if plugin != "Clone" && rapid.IntRange(0, 3).Draw(t, "nested") == 0 {
+			// the first argument is itself a derive call: the outer call can only be typed (and renamed)
+			// in a later generation pass, after the package has been loaded again
+			if plugin == "Hash" {
+				args = fmt.Sprintf("deriveCloneInner%d(x)", i)
+			} else {
+				args = fmt.Sprintf("deriveCloneInner%d(x), y", i)
+			}
+			pr.desc = append(pr.desc, "nested")
+		}
 		callExpr := c.name + "(" + args + ")"
 		switch rapid.IntRange(0, 4).Draw(t, "decor") {
 		case 1:
